@@ -572,6 +572,33 @@ func nsOfDay(t time.Time) int64 {
 	return int64(h)*3600e9 + int64(m)*60e9 + int64(s)*1e9 + int64(t.Nanosecond())
 }
 
+// MatchMillis is Match with the tolerance of the classic temporal types tightened from one
+// tick to one millisecond: for wire values (exact ticks, JitNs == 0) the decoded time may
+// deviate from the tick's exact time only by the resolution of the Go value.
+func MatchMillis(v Val, got interface{}) error {
+	if err := Match(v, got); err != nil || v.Null || v.JitNs != 0 {
+		return err
+	}
+	g, ok := got.(time.Time)
+	if !ok {
+		return nil
+	}
+	switch v.T {
+	case rc.TTime, rc.TTimeN:
+		if diff := nsOfDay(g) - TickNs(v.Tick); diff <= -1000000 || diff >= 1000000 {
+			return fmt.Errorf("time tick %d is %d ns of the day, decoded as %v: %d ns away (more than the millisecond resolution)", v.Tick, TickNs(v.Tick), g, diff)
+		}
+	case rc.TDateTime, rc.TDateTimeN:
+		if width(TW{v.T, v.W}) == 8 {
+			want := ToGo(v).(time.Time)
+			if diff := g.Sub(want); diff <= -time.Millisecond || diff >= time.Millisecond {
+				return fmt.Errorf("datetime day %d tick %d is %v, decoded as %v: off by %v (more than the millisecond resolution)", v.Day, v.Tick, want, g, diff)
+			}
+		}
+	}
+	return nil
+}
+
 // Match compares a decoded Go value with the description. The classic temporal types
 // are compared to the type's tick: the decoded time must be less than one tick away
 // from the generated time (tick time + jitter).
